@@ -352,6 +352,29 @@ def check_foreign_signal_leaves_exit(check, an: Analysis, rule: str):
                        analysed=n)
 
 
+def check_scope_told_before_done(check, an: Analysis, rule: str):
+    """a task reports its end to its scope before it wakes whoever awaits it: the abort a
+    failure triggers is queued ahead of the awaiters' wake-ups, so the body or a sibling
+    awaiting the failed child is aborted as part of the scope rather than handed the
+    child's exception first"""
+    wrapper = wrapper_callee(an)
+    n, bad = 0, None
+    for path in an.paths(wrapper):
+        told = [i for i, e in enumerate(path.events) if e.kind in ('call', 'enter')
+                and is_call_to(e, '__child_finished__')]
+        done = [i for i, e in enumerate(path.events) if e.kind in ('call', 'enter')
+                and is_call_to(e, '__set_done__')]
+        if not done:
+            continue
+        n += 1
+        if not told or told[0] > done[0]:
+            bad = bad or (path, done[0])
+    check.instance(rule, 'wrapper:scope-told-before-awaiters', bad is None and n > 0,
+                   where_fn(wrapper.fn), '__child_finished__ precedes __set_done__ on each '
+                   'of %d paths that mark the task done' % n,
+                   path=rules.path_lines(*bad) if bad else None, analysed=n)
+
+
 def check_failure_is_kept_as_raised(check, an: Analysis, rule: str):
     """a task that fails keeps the very exception object its payload raised: on every path
     of the wrapper that reports a failure to the scope, the error component of the stored
